@@ -125,7 +125,7 @@ PROPS["C06"] = dict(
     theorems=["C06_total", "C06_alloc", "C06_userop_total", "C06_report_total", "C06_canon", "C06_userop_canon", "C06_report_canon"],
     engines=["codec", "udp"],
     design="§6 C06",
-    technique="Lean 4 totality proof over the codec model (panic outcome unreachable) + differential correspondence on a malformed byte stream with allocation counting",
+    technique="Lean 4 totality proof over the codec model (panic outcome unreachable) and canonical-acceptance proof (per-decoder specification lemmas + the C05 round trip) + differential correspondence on a malformed byte stream with allocation counting",
     level_text=("Kernel-checked: for every byte string the model decoder returns a PDU or an error and never its panic outcome (C06_total; the panic "
                 "outcome marks RecordContinuationState::from_u8(..).unwrap(), the fixed u16-2 / u8+1 sites are checked arithmetic now); the only "
                 "wire-controlled allocation is below 64 KiB (C06_alloc); the decoders of the reserved CFDP messages (user_ops.rs) and of status reports never reach the panic outcome either (C06_userop_total, C06_report_total; Props/C06u.lean). 'Never loops' is Lean's termination check on the model decoders (fuel = input "
@@ -214,7 +214,7 @@ PROPS["C19"] = dict(
               "Cfdp.Net.C19_completes_despite_suspensions", "C19_resume_round"],
     engines=["send", "recv", "daemon"],
     design="§6 C19",
-    technique="Lean 4 proofs over the sender/receiver models and the task-loop step (gating of the send/timeout branches) + differential correspondence",
+    technique="Lean 4 proofs over the sender/receiver models and the task-loop step (gating of the send/timeout branches), resume composed with a recovery round through both models + differential correspondence",
     level_text=("Kernel-checked completion clause: in the two-party model suspend and resume requests at either entity, any number of them at any point, are among the actions of the calm histories of C02_two_party_completes - a suspended receiver still stores what arrives, a resumed sender transmits what it had not yet transmitted - so whatever suspensions happened, once the sender's Metadata, an EOF and data covering the file have been delivered the receiver has finished with NoError / Complete / Retained (C19_completes_despite_suspensions, Props/C19c.lean, with an example history that suspends both sides). Kernel-checked over the models of both transactions and of one task-loop iteration: in the Suspended state has_pdu_to_send is false and "
                 "until_timeout is infinite, so for every event the loop can see (peer PDU, send permit, timer wake-up after any time, report, prompt) "
                 "no PDU of any kind is transmitted (C19_*_quiet), a wake-up declares no fault and changes nothing (C19_*_no_timer_fault), and this holds for a "
@@ -351,7 +351,7 @@ PROPS["C17"] = dict(
               "C17_recv_wakes_by_expiry", "C17_send_wakes_by_expiry"],
     engines=["send", "recv"],
     design="§6 C17",
-    technique="Lean 4 proofs: closed form and invariant of the Counter model, invariant over all event histories of both transaction models, step theorems for the fault handlers + differential correspondence",
+    technique="Lean 4 proofs: closed form and invariant of the Counter model (never early, never late), invariant over all event histories of both transaction models, step theorems for the fault handlers + differential correspondence",
     level_text=("Kernel-checked. Counter: update() of a running counter adds k = (now - start) / timeout to the count (saturating at max), moves start on by k timeouts and "
                 "records an expiration iff k > 0 (updateLoop_closed); after any sequence of update / restart / reset / pause / queries at non-decreasing clock readings, "
                 "base + count x timeout <= start <= now, where base is the reading at which the count last started from zero (a ghost field of the model), so whenever "
@@ -380,14 +380,15 @@ PROPS["C17"] = dict(
 
 PROPS["C10"] = dict(
     title="Cancel ends both sides and never leaves a partial file",
-    module="Cfdp.Props.C10o",
+    module="Cfdp.Props.C10p",
     namespace="Cfdp.Loop",
     theorems=["C10_no_partial", "C10_cancel_freezes", "Cfdp.Recv.C10_recv_cancel", "Cfdp.Recv.C10_recv_peer_cancel",
               "Cfdp.Recv.C10_recv_cancel_ends", "Cfdp.Send.C10_send_cancel", "Cfdp.Send.C10_send_cancel_ends",
-              "Cfdp.Net.C10_two_party_sender_cancel", "Cfdp.Net.C10_two_party_receiver_cancel"],
+              "Cfdp.Net.C10_two_party_sender_cancel", "Cfdp.Net.C10_two_party_receiver_cancel",
+              "C10_lost_cancel_eof_round", "C10_lost_cancel_finished_round"],
     engines=["recv", "send", "daemon"],
     design="§6 C10",
-    technique="Lean 4 proofs over the receiver / sender models and the task-loop step (filestore frame + cancel handshake steps) + differential correspondence",
+    technique="Lean 4 proofs over the receiver / sender models and the task-loop step (filestore frame + cancel handshake steps), composed through both models and the link for a cancel at either entity + differential correspondence",
     level_text=("Kernel-checked: for every event a loop iteration can see, the filestore changes only if the receive transaction was still in ReceiveData and - unless the user "
                 "configured CheckLimitReached to be ignored - the metadata and every byte below the announced size had arrived (C10_no_partial: the destination name is "
                 "written by a completed delivery only, never by a cancel, fault, timeout or partial transfer); a cancel leaves the filestore as it is and from then on no "
@@ -396,7 +397,7 @@ PROPS["C10"] = dict(
                 "an EOF with an error condition cancels the receiver with that condition (C10_recv_peer_cancel); the cancelled receiver ends on ACK(Finished) or by Abandon "
                 "at the positive-ACK limit (C10_recv_cancel_ends); a user cancel at the sender = Cancelled phase and an EOF with condition CancelReceived and the sender's "
                 "entity id as fault location queued (C10_send_cancel), transmitted when the link is free, and the sender ends by Abandon at the ACK / inactivity limit "
-                "(C10_send_cancel_ends). Bounded time of those ends: C17 + C03. The two-party statement is a theorem over the composition of both models and the link (Model/Net.lean; Props/C10n.lean, Props/C10o.lean): in acknowledged mode, from ANY pair of live states - whatever history of the transfer led to them, whatever is still in flight - the handshake over a link that loses nothing from the cancel on (sender: Cancel.request, EOF(cancel) transmitted and delivered, ACK(EOF) and Finished transmitted, Finished delivered, ACK(Finished) transmitted and delivered; receiver: Cancel.request, Finished transmitted and delivered, ACK(Finished) transmitted and delivered) ends BOTH transactions, both with condition CancelReceived, both users get a Finished indication carrying it, and the receiver's filestore is as it was when the cancel took effect (C10_two_party_sender_cancel, C10_two_party_receiver_cancel; eight step lemmas, one per loop iteration of the handshake). Under losses the retransmission and limit theorems above apply. Tie to the code: recv/send engines with cancel injected before/after every PDU."),
+                "(C10_send_cancel_ends). Bounded time of those ends: C17 + C03. The two-party statement is a theorem over the composition of both models and the link (Model/Net.lean; Props/C10n.lean, Props/C10o.lean): in acknowledged mode, from ANY pair of live states - whatever history of the transfer led to them, whatever is still in flight - the handshake over a link that loses nothing from the cancel on (sender: Cancel.request, EOF(cancel) transmitted and delivered, ACK(EOF) and Finished transmitted, Finished delivered, ACK(Finished) transmitted and delivered; receiver: Cancel.request, Finished transmitted and delivered, ACK(Finished) transmitted and delivered) ends BOTH transactions, both with condition CancelReceived, both users get a Finished indication carrying it, and the receiver's filestore is as it was when the cancel took effect (C10_two_party_sender_cancel, C10_two_party_receiver_cancel; eight step lemmas, one per loop iteration of the handshake). Under a single loss (Props/C10p.lean): a lost EOF(cancel) is repeated by the cancelled sender's positive-ACK timer and cancels the receiver when it arrives (cancel_eof_timer_resends, C10_lost_cancel_eof_round); a lost Finished PDU of a cancelled receiver - or a lost ACK of it - is repeated by the receiver's positive-ACK timer, ends the sender, and the sender's ACK ends the receiver (cancelled_timer_resends, C10_lost_cancel_finished_round). Under more losses the retransmission and limit theorems above apply. Tie to the code: recv/send engines with cancel injected before/after every PDU."),
     level_note=RECV_SEND_NOTE + " Both-sides-end over a real link (two daemons) is exercised by the daemon engine (C02/C11) when registered; here each side is proved separately.",
     rule=("daemon engine (two real daemons): in every third multi-transaction scenario one acknowledged six-segment transfer is cancelled through its daemon (UserPrimitive::Cancel) right after its Put - oracles daemon_cancel (the sender reports CancelReceived or, when the receiver had completed before the cancel took effect, has at least transmitted its EOF(Cancel received)), daemon_cancel_no_file, daemon_cancel_ends; or it is cancelled at the RECEIVING daemon 100 ms after the Put while every EOF of that sender stays on the link for 450 ms - oracle daemon_cancel_recv (receiver and sender both report CancelReceived, nothing under the destination name, both ended); the other transactions must be unaffected (C11 others_unaffected). recv + send engines as in C04/C07: one history in three contains a user request at a random position (cancel / suspend-resume / EOF(cancel) from the peer / report), "
           "followed by losses of the handshake PDUs (wind-down rounds without answers) or the ACK at a random round. Oracles no_partial (filestore listing before/after every "
@@ -475,7 +476,7 @@ PROPS["C03"] = dict(
               "C03_recv_drains", "C03_recv_bounded_wakeups", "C03_recv_bounded_time"],
     engines=["recv", "send", "net", "daemon"],
     design="§6 C03",
-    technique="Lean 4 invariant proofs over all event histories of the receiver and sender models (a timer is always running or a PDU is queued) + limit-to-termination step theorems; bounded termination of the real state machines checked by a drain phase on the virtual clock",
+    technique="Lean 4 invariant proofs over all event histories of the receiver and sender models (a timer is always running or a PDU is queued) + termination measures / potentials bounding the wake-ups and the clock of the task loop left alone, for both machines; the theorems' bounds are re-evaluated on the real state machines by a drain phase on the virtual clock",
     level_text=("Kernel-checked. Receiver: after every history of loop events a receive transaction that is neither terminated nor suspended has its inactivity timer "
                 "running, so the sleep the task loop computes is finite and handle_timeout runs again whatever the peer and the link do, including nothing at all for good "
                 "(C03_recv_never_stuck: invariant Act, ~25 preservation lemmas); for the sender: after every history a send transaction that is neither terminated nor suspended "
@@ -556,7 +557,7 @@ PROPS["C11"] = dict(
               "Cfdp.Loop.C11_writes_only_own_name", "Cfdp.Loop.C11_shared_filestore"],
     engines=["daemon"],
     design="§6 C11",
-    technique="Lean 4 proofs over a model of the daemon's routing table + differential correspondence of the routing decisions + implementation-level oracles on two real daemons under a virtual clock",
+    technique="Lean 4 proofs over a model of the daemon's routing table, a whole-daemon model (table + one state per task) and the receiver's filestore frame + differential correspondence of the routing decisions + implementation-level oracles on two real daemons under a virtual clock",
     level_text=("Kernel-checked over the routing model: whatever forward_pdu decides for a PDU, the only entry of the transaction table it can touch is the one keyed by the PDU's "
                 "(source entity, sequence number) - every other transaction keeps its entry and liveness and is named by no decision (C11_route_isolated); a ToSender PDU for a "
                 "transaction that does not exist, or any PDU whose transport entity is unknown, creates nothing and changes nothing (C11_stray_discarded); a ToReceiver PDU from "
@@ -596,7 +597,7 @@ PROPS["C02"] = dict(
               "Cfdp.Loop.C02_lost_eof_round", "Cfdp.Loop.C02_lost_finished_round", "Cfdp.Loop.C02_lost_metadata_round"],
     engines=["daemon", "recv", "send", "net"],
     design="§6 C02",
-    technique="Lean 4 proofs of the recovery steps over the segment / receiver / sender models; the composition over a lossy link is checked on two real daemons under a virtual clock with bounded fault plans",
+    technique="Lean 4 proofs of the recovery steps and of whole single-loss recovery rounds (lost data, EOF, Finished / ACK, Metadata) through both transaction models and the link; the concatenation of rounds over a lossy fair schedule is checked on two real daemons under a virtual clock with bounded fault plans",
     level_text=("Kernel-checked recovery steps: whatever the receiver holds, if the data PDUs that arrive afterwards - in any order, duplicated, cut into any pieces - together cover "
                 "the bytes of [0, size) it was missing, its segment list covers [0, size) (C02_round_completes), in particular for exact answers to the requests of one NAK "
                 "(C02_gaps_answered; the requests are exactly what is missing by C08_exact, the sender's answers carry exactly the requested bytes of the file by C07); in the "
